@@ -30,14 +30,14 @@ PROP = {'lean_props': ['Comrak.Props.C01'],
                   'stack overflow is judged against an 8 MiB stack (the usual main-thread size); wall-clock budgets are 30-240 s per case',
                   'theorems about escape/escape_href (C19), tagfilter (C14) and the HTML renderer model (C10) are cited, not re-proved here'],
  'assumptions': ['inputs are valid UTF-8 (the API takes &str); hooks standing for &str are only fed valid UTF-8',
-                 'Spx::consume is modelled for well-formed positions (1 <= start column <= end column), which is what every parsed text node has']}
+                 'Spx::consume is modelled over natural numbers (no usize wrap): positions of parsed text nodes are far below 2^63']}
 
 TEXT = {'text': 'Proof (partial: per mechanism). Each function named by the anchors is modelled in Lean with every Rust panic site explicit (failed '
          'assert!/unreachable!/index/arithmetic overflow = none) and every loop structurally recursive or fuelled: the repaired '
          'shortest_unused_sequence (result in 1..=32, exits within 32 iterations, a result below 32 is really an unused run length and the '
          'shortest one; the pinned i32 version is kept as a witness: all 32 bits set => the loop never exits, a run of 32 trips the shift check), '
-         "Spx::consume (total and precondition-preserving when every queued segment is verbatim and enough bytes are queued; a concrete "
-         'counterexample shows the callers do not always establish that), the code-point arithmetic of entity::unescape (no u32 overflow for any '
+         "Spx::consume (total for EVERY queue that holds the requested bytes since the repair in /repo - the pinned assertion is gone, the split is "
+         'kept within the element; exact and verbatim-preserving on verbatim segments), the code-point arithmetic of entity::unescape (no u32 overflow for any '
          'digit count, no underflow in the hex-digit formula), normalize_code (non-empty result on non-empty input, so format_code may read '
          'literal[0]), chop_trailing_hashtags and remove_trailing_blank_lines (total under their callers\' guards, counterexamples without). '
          'Formatter sites whose safety depends on where a node sits: on every tree that satisfies the C04 shape predicate and is rooted at a document, none of the context-dependent '
@@ -46,10 +46,11 @@ TEXT = {'text': 'Proof (partial: per mechanism). Each function named by the anch
          'through its rows to their cells; that parsed trees satisfy the shape predicate is decided by C04\'s search). Tie to the code: every model is compared with the real function through cfg(comrak_verif) hooks on exhaustive short and random boundary '
          'inputs (model none <-> real panic). Search (always full volume, release and debug-assertion builds): isolated worker processes with a '
          'wall-clock watchdog run parse + HTML + CommonMark + XML under random option vectors on random/mutated/corpus documents, every '
-         'backtick run length 1..100 in code spans, and deep-nesting / long-run families up to 10^5 (quick) / 10^6 (thorough) repetitions; the '
-         'oracle is normal exit, no panic, valid UTF-8 output. Three defects of the pinned tree are listed as known findings (Spx assertion on a '
-         'footnote label holding an e-mail address; stack overflow in the recursive footnote passes; stack overflow in the recursive e-mail '
-         'autolink pass).',
+         'backtick run length 1..100 in code spans, deep-nesting / long-run families up to 10^5 (quick) / 10^6 (thorough) repetitions, and lists '
+         'nested 5 000 to 20 000 levels across lines on a 512 KiB stack; the oracle is normal exit, no panic, valid UTF-8 output. The defects this '
+         'search found on the pinned tree (Spx assertion on a footnote label holding an e-mail address; stack overflow in the recursive footnote '
+         'passes and in the recursive e-mail autolink pass; prefix underflow in the CommonMark writer; endless loop / shift overflow in '
+         'shortest_unused_sequence; tagfilter index) were all repaired in /repo and are kept as replays.',
  'note': 'Trusted: Lean kernel + standard axioms; harness, worker protocol and hook wrappers; the unmodelled rest of the parser is covered by search only.',
  'technique': 'Lean 4 totality theorems per mechanism (explicit failure values, fuel) + differential correspondence through cfg(comrak_verif) hooks '
               '+ crash/hang search in isolated processes under release and debug-assertion builds',
